@@ -10,11 +10,11 @@ import (
 // Op is one step of a history (or a sub-step executed by the host function
 // "host.act" while its guest caller is on the stack).
 type Op struct {
-	Kind string `json:"kind"`
-	RT   int    `json:"rt"`
-	Slot int    `json:"slot,omitempty"`
-	Inst int    `json:"inst"`           // instance id (index into the instance list, assigned by inst steps)
-	Name string `json:"name,omitempty"` // instance name (inst) / export (call) / global (gread)
+	Kind string   `json:"kind"`
+	RT   int      `json:"rt"`
+	Slot int      `json:"slot,omitempty"`
+	Inst int      `json:"inst"`           // instance id (index into the instance list, assigned by inst steps)
+	Name string   `json:"name,omitempty"` // instance name (inst) / export (call) / global (gread)
 	Args []uint64 `json:"args,omitempty"`
 	// passref
 	From    int    `json:"from,omitempty"`
@@ -24,14 +24,14 @@ type Op struct {
 	N       int    `json:"n,omitempty"`
 	Sub     []Op   `json:"sub,omitempty"` // executed inside host.act during this call
 	// model annotations (generator side, used for signatures and evidence only, never for the verdict)
-	Observe  bool     `json:"observe,omitempty"`
-	Mutates  bool     `json:"mutates,omitempty"`
-	Stale    []string `json:"stale,omitempty"`     // channels of funcrefs dereferenced by this step whose producer is unreachable+collected per model
-	Tainted  bool     `json:"tainted,omitempty"`   // an earlier step of this history performed a stale use
-	UAC      []string `json:"uac,omitempty"`       // use-after-close categories this step performs
-	EntryCl  bool     `json:"entry_closed,omitempty"` // entry instance closed when (or while) this call runs
-	ClosedBefore bool `json:"closed_before,omitempty"` // entry instance was already closed when the step began: not a live instance, only survival and invariance are judged
-	RelClose bool     `json:"rel_close,omitempty"` // something in the dependency closure of this step has been closed
+	Observe      bool     `json:"observe,omitempty"`
+	Mutates      bool     `json:"mutates,omitempty"`
+	Stale        []string `json:"stale,omitempty"`         // channels of funcrefs dereferenced by this step whose producer is unreachable+collected per model
+	Tainted      bool     `json:"tainted,omitempty"`       // an earlier step of this history performed a stale use
+	UAC          []string `json:"uac,omitempty"`           // use-after-close categories this step performs
+	EntryCl      bool     `json:"entry_closed,omitempty"`  // entry instance closed when (or while) this call runs
+	ClosedBefore bool     `json:"closed_before,omitempty"` // entry instance was already closed when the step began: not a live instance, only survival and invariance are judged
+	RelClose     bool     `json:"rel_close,omitempty"`     // something in the dependency closure of this step has been closed
 }
 
 type History struct {
@@ -317,10 +317,10 @@ func (m *model) relatedClosed(id int, refs []refInfo) bool {
 // generator
 
 type gen struct {
-	r   *core.Rng
-	h   *History
-	m   *model
-	agenda []Op // follow-ups that make close -> collect -> use sequences likely
+	r         *core.Rng
+	h         *History
+	m         *model
+	agenda    []Op // follow-ups that make close -> collect -> use sequences likely
 	slotsDone [2]int
 }
 
@@ -504,7 +504,7 @@ func (g *gen) next(i, target int) (Op, bool) {
 		if len(ids) == 0 || len(m.heldList) >= 4 {
 			return Op{}, false
 		}
-		return Op{Kind: "hold", Inst: pick(r, ids), Name: []string{"f0", "pt_call", "call_imp"}[r.Intn(2)], N: len(m.heldList), Args: nil}, true
+		return Op{Kind: "hold", Inst: pick(r, ids), Name: []string{"f0", "pt_call"}[r.Intn(2)], N: len(m.heldList), Args: nil}, true
 	}
 }
 
